@@ -55,7 +55,7 @@ func genSetOp(t *rapid.T) op {
 // opGroup draws one op (or a short burst). Lists are built with rapid.SliceOfN so that rapid can
 // shrink a failing history by deleting elements.
 func opGroup(nmsg int, withCleanup, withInject bool) *rapid.Generator[[]op] {
-	kinds := []string{"observe", "observe", "loopback", "loopback", "gossip", "gossip", "gossip", "gossip", "gossipvalid", "gossipvalid", "gossipvalid", "gossipvalid", "inbound", "inbound", "set"}
+	kinds := []string{"observe", "observe", "loopback", "loopback", "gossip", "gossip", "gossip", "gossip", "gossipvalid", "gossipvalid", "gossipvalid", "gossipvalid", "inbound", "inbound", "set", "quorumrun", "quorumrun"}
 	if withCleanup {
 		kinds = append(kinds, "cleanup")
 	}
@@ -80,6 +80,17 @@ func opGroup(nmsg int, withCleanup, withInject bool) *rapid.Generator[[]op] {
 				out = append(out, op{K: "gossip", A: m, B: from + j, C: 0})
 			}
 			return out
+		case "quorumrun": // local observation, own signature, then valid observations from the first members
+			m := rapid.IntRange(0, nmsg-1).Draw(t, "m")
+			cnt := rapid.IntRange(0, 14).Draw(t, "cnt")
+			out := []op{{K: "observe", A: m}}
+			if rapid.Bool().Draw(t, "ownfirst") {
+				out = append(out, op{K: "loopback", A: 0})
+			}
+			for j := 0; j < cnt; j++ {
+				out = append(out, op{K: "gossip", A: m, B: 1 + j, C: 0})
+			}
+			return append(out, op{K: "loopback", A: 0})
 		case "inbound":
 			return []op{{K: k, A: rapid.IntRange(0, nmsg-1).Draw(t, "m"), B: rapid.IntRange(0, len(inboundKinds)-1).Draw(t, "kind"), C: rapid.IntRange(0, 1000).Draw(t, "seed")}}
 		case "set":
@@ -104,7 +115,7 @@ func genOps(t *rapid.T, nmsg int, maxOps int, withCleanup, withInject bool) []op
 	if rapid.IntRange(0, 9).Draw(t, "startset") > 0 {
 		ops = append(ops, genSetOp(t))
 	}
-	return append(ops, flatten(rapid.SliceOfN(opGroup(nmsg, withCleanup, withInject), 1, maxOps).Draw(t, "ops"))...)
+	return append(ops, flatten(rapid.SliceOfN(opGroup(nmsg, withCleanup, withInject), 3, maxOps).Draw(t, "ops"))...)
 }
 
 func genC01(t *rapid.T) procCase {
